@@ -119,24 +119,24 @@ var lsets = []model.LabelSet{
 	{"a": "~x1", "b": "=2"},
 	// host-like values for the long alternations of escaped literals below (hostAlts): a listed host, an unlisted
 	// one, and the escaped source text of a listed one (which is NOT a listed host)
-	{"a": "db1.prod.example.com:9100"},
-	{"a": "db99.prod.example.com:9100", "b": "x1"},
-	{"a": `db1\.prod\.example\.com:9100`},
+	{"a": "h1.io"},
+	{"a": "h99.io", "b": "x1"},
+	{"a": `h1\.io`},
 }
 
-// hostAlts(n): db0\.prod\.example\.com:9100|db1\....: what a maintenance silence listing n hosts looks like
+// hostAlts(n): h0\.io|h1\.io|...: what a maintenance silence listing n hosts looks like
 func hostAlts(n int) string {
 	var alts []string
 	for i := 0; i < n; i++ {
-		alts = append(alts, fmt.Sprintf(`db%d\.prod\.example\.com:9100`, i))
+		alts = append(alts, fmt.Sprintf(`h%d\.io`, i))
 	}
 	return strings.Join(alts, "|")
 }
 
 var (
 	names    = []string{"a", "b", "ü"}
-	values   = []string{"", "1", "2", "x1", "x1\n", "1\n2", "\tx1\r", "~x1", "=2", "~1|2", "db1.prod.example.com:9100", "db99.prod.example.com:9100", `db1\.prod\.example\.com:9100`}
-	rePats   = []string{"1|2", "x.+", ".*", "[12]?", ".+", "x.*", ".*1", ".*x1.*", "x1", ".*2", "1", "2", "", "~x1", "~1|2", "=2", "~x.*", hostAlts(15), hostAlts(17), hostAlts(40)} // incl. the equality values, for operator-only edits; long alternations of escaped literals
+	values   = []string{"", "1", "2", "x1", "x1\n", "1\n2", "\tx1\r", "~x1", "=2", "~1|2", "h1.io", "h99.io", `h1\.io`}
+	rePats   = []string{"1|2", "x.+", ".*", "[12]?", ".+", "x.*", ".*1", ".*x1.*", "x1", ".*2", "1", "2", "", "~x1", "~1|2", "=2", "~x.*", hostAlts(15), hostAlts(17)} // incl. the equality values, for operator-only edits; long alternations of escaped literals
 	badPat   = "("
 	setPool  = [][][]Mat{
 		{{{0, "a", "1"}}},
@@ -168,7 +168,6 @@ var (
 		{{{1, "a", hostAlts(17)}}},
 		{{{3, "a", hostAlts(17)}, {0, "b", "x1"}}},
 		{{{1, "a", hostAlts(15)}}},
-		{{{1, "a", hostAlts(40)}}, {{0, "b", "2"}}},
 	}
 	peerIDs = []string{"p1", "p2", "p3"}
 	allIDs  = []string{"p1", "p2", "p3", "pbad", "q1", "q2", "q3", "q4"}
